@@ -38,6 +38,15 @@ def t_ints(rng, lvl, u):
     for i in range(rng.randrange(3, 10)):
         n = rng.choice(INT_EDGES) + rng.choice([0, 0, 1, -1, rng.randrange(1000)])
         out.append("i%s_%d = %d" % (u, i, n))
+    # ints beyond 4300 decimal digits (3.11+ hosts refuse to print them in decimal), alone and inside every container kind;
+    # written in hex so that every compiler accepts the literal
+    h = "0x" + "".join(rng.choice("123456789abcdef") for _ in range(3700))
+    out.append("ih%s_0 = %s" % (u, h))
+    out.append("ih%s_1 = (1, %s)" % (u, h))
+    out.append("ih%s_2 = (2.5, (3, -%s))" % (u, h))
+    out.append("def ihf%s(a):\n    return a in (%s, 5), a in [7, %s, 'x']" % (u, h, h))
+    if lvl >= (3, 6):
+        out.append("def ihg%s(a):\n    return a in {%s, 5}" % (u, h))
     out.append("print(i%s_0)" % u)
     return "\n".join(out)
 
